@@ -135,6 +135,11 @@ def run(ctx):
     asm, goal = c_import.roundtrip_lemma()
     ctx.lemma("slice-roundtrip: import(export(slice)) selects the same bits (over the contracts of export_slice, "
               "import_connection_target and _slice_inner)", asm, goal)
+    from contracts import c_conntarget as cc
+    obs, info = cc.roundtrip_obligations()
+    if len(obs) < 1:
+        ctx.checker_errors.append("no round-trip obligation generated for export/import_connection_target")
+    ctx.discharge(obs, cc.KEY + " ; " + c_import.KEY + " [round trip, one symbolic run]", info)
     ctx.assumptions.append("import_concat / from_proto's module and instance loops are not under contract (bounded part); "
                            "the protobuf oneof of a ConnectionTarget is modelled as ghost state of the record")
     ctx.run_bounded("tables", ["tables"], check_tables, rule="21 prefixes and 4 port directions, exhaustive",
